@@ -13,9 +13,14 @@ FIELDS = {"fmt": "format", "rh": "rhbits", "fh": "fhbits", "c": "cbits", "p": "p
 def execute(case):
     oids = proj.Oids()
     depth = case["depth"]
-    out = {"tid": case["tid"], "spec": case["spec"], "rootspec": case["rootspec"], "shapes": case["shapes"], "depth": depth, "exc": "ok", "qs": []}
+    out = {"tid": case["tid"], "spec": case["spec"], "rootspec": case["rootspec"], "shapes": case["shapes"], "depth": depth, "exc": "ok", "qs": [], "qs2": [], "grown": 0, "pre2": {"root": {"k": "F", "e": []}}}
     try:
-        t = proj.build_tensor(case["tree"], IDS[:depth], shape=case["shapes"])
+        if case.get("ownshape"):
+            # the fibers were built with (smaller) shapes of their own before they joined the tensor: the footprint is defined by the rank's shape
+            from fibertree import Tensor as _T
+            t = _T.fromFiber(rank_ids=IDS[:depth], fiber=proj.build_fiber(case["tree"], shape=[s_ - 1 for s_ in case["shapes"]]), shape=list(case["shapes"]), name="T")
+        else:
+            t = proj.build_tensor(case["tree"], IDS[:depth], shape=case["shapes"])
         spec = {}
         for rid, s in zip(IDS[:depth], case["spec"]):
             d = {}
@@ -66,6 +71,28 @@ def execute(case):
                 r["res"] = -1 if q["q"] != "field" or q["f"] not in ("fmt", "layout") else ""
             out["qs"].append(r)
         out["post"] = proj.proj_tensor(t, oids)
+        if case.get("grow"):
+            # the tensor grows (a new point is written) and the SAME Format object is asked again
+            ref = t.getPayloadRef(*case["grow"])
+            ref <<= 1
+            out["grown"] = 1
+            out["pre2"] = proj.proj_tensor(t, oids)
+            for q in [{"q": "tensor"}] + [{"q": "rank", "r": r_} for r_ in range(1, depth + 1)] + [{"q": "subtree", "pt": []}, {"q": "fiber", "pt": []}]:
+                r = dict(q)
+                r["exc"] = "ok"
+                try:
+                    if q["q"] == "tensor":
+                        r["res"] = fm.getTensor()
+                    elif q["q"] == "rank":
+                        r["res"] = fm.getRank(IDS[q["r"] - 1])
+                    elif q["q"] == "subtree":
+                        r["res"] = fm.getSubTree()
+                    else:
+                        r["res"] = fm.getFiber()
+                except BaseException as ex:  # noqa: B036
+                    r["exc"] = "err:" + type(ex).__name__
+                    r["res"] = -1
+                out["qs2"].append(r)
     except BaseException as ex:  # noqa: B036
         out["exc"] = "err:" + type(ex).__name__ + ":" + str(ex)[:80]
         out.setdefault("pre", {})
